@@ -114,6 +114,12 @@ func Main(m *testing.M, property string) {
 		r.outFile = f
 	}
 	loadFindings()
+	if u := os.Getenv("VERIF_UMASK"); u != "" {
+		// a stricter process umask than the usual 022 (octal)
+		if v, err := strconv.ParseUint(u, 8, 32); err == nil {
+			syscall.Umask(int(v))
+		}
+	}
 	if u := os.Getenv("VERIF_DROP_UID"); u != "" {
 		uid, _ := strconv.Atoi(u)
 		if os.Getuid() == 0 && uid > 0 {
